@@ -255,6 +255,10 @@ def formula_balanced(rsmi: str) -> Optional[bool]:
 # ----------------------------------------------------------------------------- C03 judgement of one application
 def judge_outputs(sr, substrate_canon: str, invert: bool, tpl_change: Optional[nx.Graph], ctx: str, fails: List[Fail], key: str, rule_balanced: bool = True, tpl_change_h: Optional[nx.Graph] = None, isolated: bool = False):
     outs = sr.smarts_list
+    again = sr.smarts_list  # a second read of the same reactor object
+    if list(again) != list(outs):
+        fails.append(Fail("second_read_differs", f"{ctx}: first read {list(outs)[:1]}, second read {list(again)[:1]}", "the same list on every read", key_extra=key))
+        return
     n_bad = 0
     for o in outs:
         r, p = er.split(o)
@@ -318,11 +322,11 @@ def check_c03_c04(case):
     for kind, tpl in tpls.items():
         for invert in (False, True):
             for strat in (("all", "comp", "bt") if TIER[0] != "quick" else (("all", "bt") if kind == "centre" else (("bt", "comp") if kind == "full" else ("bt",)))):
-                sr = apply(pc if invert else rc, tpl, rid, invert, strat)
                 key = f"{kind},{'bwd' if invert else 'fwd'},{strat}"
-                if len(sr.mappings) > MAX_MATCHES:
+                if len(apply(pc if invert else rc, tpl, rid, invert, strat).mappings) > MAX_MATCHES:
                     skipped_big += 1  # gluing > MAX_MATCHES matches of a full-ITS template costs minutes; counted, not judged
                     continue
+                sr = apply(pc if invert else rc, tpl, rid, invert, strat)  # a fresh reactor whose results are read before anything else
                 carries_all = kind in ("full", "string") or centre_ok  # then an atom off the changed bonds may not change its charge either
                 outs = judge_outputs(sr, pc if invert else rc, invert, chi[invert] if carries_all else (ch_b if invert else ch_f), key, fails, key, rule_balanced=carries_all, tpl_change_h=chh[invert], isolated=carries_all)
                 n += 1
@@ -388,10 +392,10 @@ def check_c04_variants(case):
             if kind == "centre" and not centre_ok:
                 continue
             for invert in (False, True):
-                sr = apply(subs["bwd" if invert else "fwd"], tpl, rid, invert, "bt")
                 n += 1
-                if len(sr.mappings) > MAX_MATCHES:
+                if len(apply(subs["bwd" if invert else "fwd"], tpl, rid, invert, "bt").mappings) > MAX_MATCHES:
                     continue
+                sr = apply(subs["bwd" if invert else "fwd"], tpl, rid, invert, "bt")  # fresh: results read first
                 if want in result_set(sr.smarts_list):
                     regen += 1
                 else:
